@@ -238,6 +238,10 @@ class BaseFileWriterSession(BaseWriterSession):
 
         if code == http.client.PARTIAL_CONTENT:
             self.open_file(self._filename, response, mode='ab+')
+        elif 200 <= code <= 299:
+            # The server ignored the Range field and sends the whole
+            # document: start over, as Wget does.
+            self.open_file(self._filename, response)
         else:
             self._raise_cannot_continue_error()
 
@@ -246,7 +250,9 @@ class BaseFileWriterSession(BaseWriterSession):
         if response.request.restart_value and response.restart_value:
             self.open_file(self._filename, response, mode='ab+')
         else:
-            self._raise_cannot_continue_error()
+            # The server did not accept the restart (or there was nothing
+            # to restart from) and sends the whole file: start over.
+            self.open_file(self._filename, response)
 
     def _raise_cannot_continue_error(self):
         '''Raise an error when server cannot continue a file.'''
